@@ -128,11 +128,11 @@ impl Sched {
         me: usize,
     ) -> std::sync::MutexGuard<'a, St> {
         while g.current != me {
-            let (ng, to) = self.cv.wait_timeout(g, Duration::from_secs(30)).unwrap();
+            let (ng, to) = self.cv.wait_timeout(g, Duration::from_secs(120)).unwrap();
             g = ng;
             if to.timed_out() && g.current != me {
                 eprintln!(
-                    "STALL: simulated thread {} waited 30s for thread {} to reach a seam point",
+                    "STALL: simulated thread {} waited 120s for thread {} to reach a seam point",
                     me, g.current
                 );
                 std::process::exit(2);
